@@ -288,7 +288,7 @@ pub fn run(ctx: &'static Ctx) {
     ctx.rule("state = (flavour, flag subset, counter, attested data present, aaguid/id/public-key lengths, extension member choices); each is serialised by the real code and compared byte for byte with the WebAuthn layout; non-trivial = attested data or extensions present");
     let bufs = Buffers::new();
     let ids = id_lengths();
-    let pks = [0usize, 1, 32, 77, 100, 256, 600, 620, 621, 622, 623, 636, 637, 638, 639, 640, 641, 660, 700, 1000];
+    let pks = [0usize, 1, 32, 77, 100, 255, 256, 257, 258, 300, 364, 365, 400, 500, 600, 620, 621, 622, 623, 636, 637, 638, 639, 640, 641, 660, 700, 1000];
     let aag = [0usize, 16, 17];
     for mc in [true, false] {
         let exts = ext_choices(mc);
@@ -303,7 +303,7 @@ pub fn run(ctx: &'static Ctx) {
             let ext_sel: Vec<usize> = if ctx.thorough() { (0..exts.len()).collect() } else { vec![0, 1, exts.len() / 2, exts.len() - 1] };
             let rad = [flagsets.len() as u64, counters.len() as u64, ids.len() as u64, pks.len() as u64, aag.len() as u64, ext_sel.len() as u64];
             let (exts2, bufs2) = (&exts, &bufs);
-            sweep(ctx, &format!("{} layout: length grid", fl), product(&rad), "flags x counters x every credential-id length 0..=700,65535,65536,70000 x 20 public-key lengths (0..=1000, dense around the 639-byte remainder) x aaguid lengths x extension choices", |idx, l| {
+            sweep(ctx, &format!("{} layout: length grid", fl), product(&rad), "flags x counters x every credential-id length 0..=700,65535,65536,70000 x 28 public-key lengths (0..=1000, around 256, dense around the 639-byte remainder) x aaguid lengths x extension choices", |idx, l| {
                 let mut d = [0u64; 6];
                 unrank(idx, &rad, &mut d);
                 let c = Case {
